@@ -601,7 +601,29 @@ func judgeC02(c *C02Case, p *c02Plan, tasks []taskOutcome) c02Obs {
 				return c02Obs{Clause: "layer-accepted-but-isolated-replay-rejects", Op: i, Got: got, Want: why}
 			}
 			failedAt = i
-			break // the state after a failed merge is not specified
+			// what the layer's own targets hold after a failed merge is not
+			// specified; every OTHER document must be exactly what it was
+			if i > 0 && i < len(main.Ops) && main.Ops[i].HasDocs {
+				prev := p.stateAt[i-1]
+				snap := main.Ops[i].Docs
+				if len(snap) < prev {
+					return c02Obs{Clause: "document-lost-by-rejected-layer", Op: i, Got: len(snap), Want: prev}
+				}
+				gotDocs := dataOf(snap)
+				isTarget := map[int]bool{}
+				for _, t := range p.targets[i] {
+					isTarget[t] = true
+				}
+				for j := 0; j < prev; j++ {
+					if isTarget[j] {
+						continue
+					}
+					if exp, ok := expectAfter(j, i-1); ok && gotDocs[j] != exp {
+						return c02Obs{Clause: "unselected-document-changed-by-rejected-layer", Op: i, Doc: j, Got: short(gotDocs[j], 700), Want: short(exp, 700)}
+					}
+				}
+			}
+			break
 		}
 		if got != "ok" {
 			return c02Obs{Clause: "layer-rejected-but-isolated-replays-accept", Op: i, Got: map[string]any{"outcome": got, "err": errOf(main, i)}, Want: "ok"}
